@@ -41,6 +41,7 @@ type PropCfg struct {
 	Trusted   []string   `json:"trusted_base"`
 	Structural []string  `json:"structural"` // names of structural (static) checks to run
 	Bounded   *BoundedCfg `json:"bounded"`   // bounded stand-in (never counted as proved)
+	GoLedger  bool       `json:"go_ledger"` // every go statement of a unit must be acknowledged by its contract
 }
 
 // BoundedCfg: an executable-contract harness injected into a package of /repo
@@ -325,6 +326,7 @@ func cmdCheck(args []string) int {
 		}
 	}
 	e := loadAll(cfg.Packages)
+	e.goLedgerOn = cfg.GoLedger
 	timeout := 10
 	if tier == "thorough" {
 		timeout = 60
